@@ -63,14 +63,25 @@ def scanRows (dl : List α) (drx : α) (dvdx : List α) : Nat → α → List α
         frags := varyN dvdx (HasToNat.toNatSat (x1 - x0)) v0 }
     row :: scanRows dl drx dvdx n (y + 1) (stepL left dl) (right + drx)
 
-/-- raster.rs:171-225 `scan` (with the `fix:` that takes dv/dx along the wider base). -/
+/-- raster.rs:198 `let recip = |dx: f32| if dx != 0.0 { dx.recip() } else { 0.0 };` — the guarded
+reciprocal of a base width. Written so that it is faithful under EVERY interpretation of the scalar:
+  * `dx ≠ 0` is spelled `dx < 0 ∨ 0 < dx` (the model has no equality on scalars);
+  * the `else` value is `dx * 0` rather than the literal `0`: for a number it IS `0` (`0 * 0`), while
+    for a poisoned `dx` (NaN in Rust, for which `dx != 0.0` is TRUE and `NaN.recip()` is NaN) both
+    comparisons are false and `bad * 0 = bad` keeps the poison instead of laundering it into `0`.
+Over a field `recip0 dx = 1 / dx` for every `dx` (`Retro.Lemmas.Raster.recip0_eq`), so nothing computed
+at `Rat` changes. (At `f32` the sign of the zero is not modelled: `-0.0 * 0 = -0.0`, Rust gives `0.0`.) -/
+def recip0 (dx : α) : α := if dx < 0 ∨ 0 < dx then 1 / dx else dx * 0
+
+/-- raster.rs:171-225 `scan` (with the `fix:`es that take dv/dx along the wider base and guard its
+reciprocal). -/
 def scan (y0 y1 : α) (l0 l1 r0 r1 : List α) : List (Scanline α) :=
   let recipDy := 1 / (y1 - y0)
   let dl := dvdtL l0 l1 recipDy
   let dr := dvdtL r0 r1 recipDy
   let dx0 := nth0 r0 - nth0 l0
   let dx1 := nth0 r1 - nth0 l1
-  let dvdx := if dx0 * dx0 < dx1 * dx1 then dvdtL l1 r1 (1 / dx1) else dvdtL l0 r0 (1 / dx0)
+  let dvdx := if dx0 * dx0 < dx1 * dx1 then dvdtL l1 r1 (recip0 dx1) else dvdtL l0 r0 (recip0 dx0)
   let y0r := roundUpHalf y0
   let y1r := roundUpHalf y1
   let tweak := y0r - y0
